@@ -266,3 +266,4 @@ class _V:
 
 
 V = _V()
+V.NOARG = Tok("NOARG")  # default of callback parameters in rendered programs: must never be what a callback receives
